@@ -75,18 +75,22 @@ OPS = {
     "gac": {"op": "gac", "pool": 0, "rex": True, "waiters": 1},
     "apply1": {"op": "apply", "pool": 0, "num": 1, "args": 1, "fname": "x", "marker": True, "bodies": [{"pre": [["y", 1]]}]},
     "start1": {"op": "start", "pool": 0, "num": 1},
+    "regroup": {"op": "seq", "steps": [{"op": "cancel_group", "pool": 0, "sel": ["live", 0]},
+                                       {"op": "apply", "pool": 0, "num": 2, "args": 1, "fname": "w", "marker": True, "gname": ["reuse_last"], "bodies": [{"pre": [["y", 1]]}]}]},
+    "regroup_map": {"op": "seq", "steps": [{"op": "cancel_group", "pool": 0, "sel": ["live", 1]},
+                                           {"op": "map", "pool": 0, "kind": "map", "n": 3, "nc": 1, "fname": "w", "marker": True, "iter": "gen", "gname": ["reuse_last"], "bodies": [{"pre": [["y", 1]]}]}]},
 }
 
 SPECS = {
     "C01": ["cancel0", "cancel_group0", "cancel_all", "stop1", "flush", "apply1", "start1"],
     "C02": ["cancel0", "cancel_last", "cancel2", "cancel_group0", "cancel_group1", "cancel_all", "stop1", "stop_all", "flush"],
     "C03": ["cancel0", "cancel_twice", "cancel_group0", "cancel_all", "stop2", "flush"],
-    "C04": ["lock", "gac", "cancel0", "cancel_group1"],
+    "C04": ["lock", "gac", "cancel0", "cancel_group1", "regroup"],
     "C05": ["cancel0", "cancel_last", "flush", "apply1"],
     "C06": ["cancel0", "cancel2", "cancel_mixed", "cancel_twice", "cancel_last"],
-    "C07": ["cancel_group0", "cancel_group1", "cancel_all"],
-    "C08": ["gac"],
-    "C10": ["cancel_group0", "apply1", "start1"],
+    "C07": ["cancel_group0", "cancel_group1", "cancel_all", "regroup", "regroup_map"],
+    "C08": ["gac", "regroup"],
+    "C10": ["cancel_group0", "apply1", "start1", "regroup", "regroup_map"],
     "C11": ["flush", "cancel0", "apply1", "start1"],
     "C12": ["flush_raise", "flush", "gac"],
     "C13": ["flush", "flush_raise"],
@@ -100,8 +104,10 @@ def _applicable(base, opname):
     cls = base["pools"][0]["cls"]
     if opname.startswith("stop") or opname == "start1":
         return cls == "S"
-    if opname == "apply1":
+    if opname in ("apply1", "regroup"):
         return cls == "T"
+    if opname == "regroup_map":
+        return cls == "T" and sum(1 for s in base["steps"] if s["op"] in ("apply", "map", "start")) >= 2
     if opname == "cancel_group1":
         return sum(1 for s in base["steps"] if s["op"] in ("apply", "map", "start")) >= 2
     return True
